@@ -58,7 +58,8 @@ class Prop:
             "through a random position of every sibling list; WIDE forests "
             "whose many siblings (and top-level nodes) hold equal-comparing data of several sorts (value-equal objects, equal tuples, "
             "equal ints, equal frozen dataclasses, equal strings) under distinct data_ids; every query of node.py:373-540 on every node, "
-            "every ordered pair for the ancestor/descendant/common-ancestor tests, up(k) for k=0..depth+1, Tree.calc_height.  "
+            "every ordered pair for the ancestor/descendant/common-ancestor tests, up(k) for k=0..depth+1, Tree.calc_height, tree.children / get_toplevel_nodes / first_child / last_child / len / "
+            "count and count_descendants of the system root.  "
             "A case is one tree; distinct = distinct (typed, shape, labeling); non-trivial = >= 3 nodes")
     exhaustive_note = "all shapes <= N nodes (N=5 quick) x 3 labelings"
     assumptions = ["identity of nodes is the allocation index recorded by a harness-side wrapper of Node.__init__"]
@@ -240,7 +241,12 @@ class Prop:
             pairs.append([[lid(b) for b, r in zip(nodes, dr) if truthy(r)] + [-1 for r in dr if r not in (True, False)],
                           [lid(b) for b, r in zip(nodes, ar) if truthy(r)] + [-1 for r in ar if r not in (True, False)],
                           [cid(call(lambda: a.get_common_ancestor(b))) for b in nodes]])
-        obs = [per_node, pairs, num(call(lambda: tree.calc_height()))]
+        tl1, tl2 = call(lambda: tree.children), call(lambda: tree.get_toplevel_nodes())
+        tree_obs = [nl(tl1) if tl1 == tl2 else [-2], on(call(lambda: tree.first_child(*KA))), on(call(lambda: tree.last_child(*KA))),
+                    num(call(lambda: len(tree))) if call(lambda: len(tree)) == call(lambda: tree.count) else -2,
+                    num(call(lambda: tree.system_root.count_descendants())),
+                    num(call(lambda: tree.system_root.count_descendants(leaves_only=True)))]
+        obs = [per_node, pairs, num(call(lambda: tree.calc_height())), tree_obs]
         fail = self.oracle(tree, nodes, obs, lid)
         coq_in = re.sub(r"\(Tz (\d+) ", lambda m: f"(Tz {local[int(m.group(1))]} ", H.coq_forest(tree._root, U))
         return Case(desc=desc, coq_input=coq_in, impl_obs=obs, oracle_fail=fail,
@@ -249,7 +255,7 @@ class Prop:
                                max_sibs=max((len(p._children or []) for p in [tree._root] + nodes), default=0)))
 
     def oracle(self, tree, nodes, obs, lid):
-        per_node, pairs, th = obs
+        per_node, pairs, th, tree_obs = obs
         root = tree._root
 
         def ids(l):
@@ -320,6 +326,13 @@ class Prop:
             for b, g, e in zip(nodes, row[2], exp_common):
                 if g != e:
                     return f"get_common_ancestor: nodes {lid(a)},{lid(b)} got {g} expected {e} (0 = None)"
+        top = root._children or []
+        exp_tree = [ids(top), o(top[0] if top else None), o(top[-1] if top else None), len(nodes), len(nodes),
+                    sum(1 for n in nodes if not n._children)]
+        for nm, g, e in zip(["tree.children/get_toplevel_nodes", "tree.first_child", "tree.last_child", "len(tree)/tree.count",
+                             "system_root.count_descendants", "system_root.count_descendants(leaves_only)"], tree_obs, exp_tree):
+            if g != e:
+                return f"{nm}: got {g} expected {e}"
         eh = max((len(chain(n)) + 1 for n in nodes), default=0)
         if th != eh:
             return f"Tree.calc_height: got {th} expected {eh}"
